@@ -33,6 +33,7 @@ type c08Script struct {
 	dropAfter int  // index of the segment after which the source drops the link (-1: never)
 	refuse    int  // reconnect attempts refused before one is accepted
 	psyncErr  bool // the first reconnect is answered with an error to PSYNC (the tool then waits 30 s): thorough tier only
+	idleDrop  bool // the first reconnect is continued, carries no stream byte and is dropped again
 }
 
 func (s c08Script) total() int {
@@ -52,7 +53,7 @@ func (s c08Script) String() string {
 		}
 		parts = append(parts, p)
 	}
-	return fmt.Sprintf("start=%d full=%v waitFull@%v refuse=%d psyncErr=%v segs=[%s]", s.start, s.full, s.waitFull, s.refuse, s.psyncErr, strings.Join(parts, " "))
+	return fmt.Sprintf("start=%d full=%v waitFull@%v refuse=%d psyncErr=%v idleDrop=%v segs=[%s]", s.start, s.full, s.waitFull, s.refuse, s.psyncErr, s.idleDrop, strings.Join(parts, " "))
 }
 
 func drawC08Script(t *rapid.T) c08Script {
@@ -82,6 +83,9 @@ func drawC08Script(t *rapid.T) c08Script {
 		s.refuse = rapid.SampledFrom([]int{0, 0, 1}).Draw(t, "refuse")
 		if thorough() && rapid.IntRange(0, 3).Draw(t, "psyncErr") == 0 {
 			s.psyncErr, s.refuse = true, 0
+		}
+		if !s.psyncErr && rapid.IntRange(0, 3).Draw(t, "idleDrop") == 2 {
+			s.idleDrop = true
 		}
 	}
 	return s
@@ -143,6 +147,15 @@ func runC08(s c08Script) c08Outcome {
 				psyncSeen = append(psyncSeen, fmt.Sprintf("%s %d", runid, offset))
 				pmu.Unlock()
 				return []fsrc.Step{{Send: []byte("-NOMASTERLINK Can't SYNC while not connected with my master\r\n"), Close: true}}
+			}})
+		}
+		if s.idleDrop {
+			// the source continues, has nothing to send and loses the link again
+			plans = append(plans, fsrc.Plan{OnPSync: func(runid string, offset int64) []fsrc.Step {
+				pmu.Lock()
+				psyncSeen = append(psyncSeen, fmt.Sprintf("%s %d", runid, offset))
+				pmu.Unlock()
+				return []fsrc.Step{{Send: []byte("+CONTINUE\r\n"), Sleep: 150 * time.Millisecond}, {Close: true}}
 			}})
 		}
 		plans = append(plans, fsrc.Plan{OnPSync: func(runid string, offset int64) []fsrc.Step {
@@ -221,10 +234,13 @@ func runC08(s c08Script) c08Outcome {
 	if s.psyncErr {
 		deadline = time.Now().Add(40 * time.Second)
 	}
+	if s.idleDrop {
+		deadline = deadline.Add(3 * time.Second)
+	}
 	for s.dropAfter >= 0 && time.Now().Before(deadline) {
 		cl := src.ConnList()
 		need := 2
-		if s.psyncErr {
+		if s.psyncErr || s.idleDrop {
 			need = 3
 		}
 		if len(cl) >= need {
@@ -298,6 +314,10 @@ func runC08(s c08Script) c08Outcome {
 				out.sig, out.msg = "reconnect-offset", fmt.Sprintf("after the drop the tool sent PSYNC %v; the source had sent %d stream bytes from start offset %d, so every attempt must ask for %s", seen, sentBeforeDrop, s.start, wantPS)
 				return out
 			}
+		}
+		if s.idleDrop && len(seen) < 2 {
+			out.sig, out.msg = "no-reconnect", fmt.Sprintf("the continued link was dropped again while idle; no further PSYNC within %d s (seen %v)", 9+s.refuse, seen)
+			return out
 		}
 		if s.psyncErr && len(seen) < 2 {
 			out.sig, out.msg = "no-reconnect", fmt.Sprintf("PSYNC was refused once; no second attempt within 40 s (seen %v)", seen)
